@@ -121,9 +121,10 @@ LexWeight(c, i) ==
 
 IsLawCase(c) ==
   \/ (c.sel = "tournament" /\ c.k <= Len(c.pop) /\ Len(c.pop) >= 2 /\ DistinctScores(c.pop))
-  \/ (c.sel = "lexicase" /\ Len(c.pop) >= 2 /\ c.c >= 2 /\ c.pol = "score"
+  \/ (c.sel = "lexicase" /\ Len(c.pop) >= 2 /\ c.pol = "score"
       /\ \A i \in Idx(c.pop) : Len(c.pop[i].res) = c.c
-      /\ Cardinality({LexOutcomesFor(c.pop, c.pol, c.c, ord) : ord \in CaseOrders(c.c)}) >= 2)
+      /\ \/ Cardinality({LexOutcomesFor(c.pop, c.pol, c.c, ord) : ord \in CaseOrders(c.c)}) >= 2
+         \/ (Len(c.pop) >= 3 /\ Cardinality(LexicaseOutcomes(c.pop, c.pol, c.c)) >= 3))
 
 Law(c) ==
   IF c.sel = "tournament"
